@@ -38,6 +38,7 @@ pub fn warm_up() {
     ignore_file: None,
     injections: 2,
     aux_files: vec![],
+    lang_globs: None,
   };
   let root = cli_run::scratch_root().join("warmup");
   w.materialize(&root);
@@ -117,6 +118,7 @@ pub fn main() -> i32 {
       ignore_file: None,
       injections: 0,
       aux_files: vec![],
+    lang_globs: None,
     };
     let root = cli_run::scratch_root().join("selftest");
     w.materialize(&root);
